@@ -62,6 +62,40 @@ def oracle(tier, rng, deep=False):
     from skglm.estimators import SparseLogisticRegression, LinearSVC
     failures = []
     ev = nontriv = 0
+    # rows of a batch are independent: predict_proba on a batch that mixes ordinary samples with far-away ones (decision values
+    # hundreds apart) equals the row-by-row result, is finite, sums to one, is monotone in the decision and agrees with predict
+    for _ in range(6 if tier == "quick" and not deep else 40):
+        p = rng.randint(1, 3)
+        K = rng.choice([2, 2, 3])
+        clf = SparseLogisticRegression()
+        clf.classes_ = np.arange(K)
+        clf.n_features_in_ = p
+        clf.coef_ = np.array([[rng.choice([-2.0, -0.5, 0.5, 1.0, 3.0]) for _ in range(p)] for _ in range(1 if K == 2 else K)])
+        clf.intercept_ = rng.choice([-1.0, 0.0, 0.5]) if K == 2 else np.array([rng.choice([-1.0, 0.0, 0.5]) for _ in range(K)])
+        Xb = np.array([[rng.gauss(0, 1) for _ in range(p)] for _ in range(rng.randint(2, 5))])
+        Xb[rng.randrange(len(Xb))] *= rng.choice([300.0, 1000.0, 5000.0])           # one far-away sample
+        inp = dict(coef=np.asarray(clf.coef_).tolist(), intercept=np.asarray(clf.intercept_).tolist(), X=Xb.tolist())
+        try:
+            pb = np.asarray(clf.predict_proba(Xb), dtype=float)
+            rows = np.vstack([np.asarray(clf.predict_proba(Xb[i:i + 1]), dtype=float) for i in range(len(Xb))])
+            dec = clf.decision_function(Xb)
+            pred = clf.predict(Xb)
+        except Exception as e:
+            failures.append(dict(site="raises:predict_proba-batch", input=inp, observed=repr(e)[:200]))
+            continue
+        ev += 1; nontriv += 1
+        if not np.all(np.isfinite(pb)) or not np.allclose(pb.sum(axis=1), 1.0, atol=1e-12):
+            badrows = [i for i in range(len(Xb)) if not (np.all(np.isfinite(pb[i])) and abs(pb[i].sum() - 1.0) <= 1e-12)]
+            underflow = K > 2 and all(np.all(np.asarray(dec)[i] < -700.0) for i in badrows) and np.allclose(pb[[i for i in range(len(Xb)) if i not in badrows]], rows[[i for i in range(len(Xb)) if i not in badrows]], rtol=1e-10, atol=1e-300)
+            failures.append(dict(site="predict_proba-batch:not-a-distribution" + (":ovr-all-classes-underflow" if underflow else ""), input=inp, observed=pb.tolist()))
+        elif not np.allclose(pb, rows, rtol=1e-10, atol=1e-300):
+            failures.append(dict(site="predict_proba-batch:differs-from-row-by-row", input=inp, observed=pb.tolist(), expected=rows.tolist()))
+        elif not np.array_equal(clf.classes_[np.argmax(pb, axis=1)], pred) and not np.any(np.isclose(np.sort(pb, axis=1)[:, -1], np.sort(pb, axis=1)[:, -2])):
+            failures.append(dict(site="predict_proba-batch:argmax-differs-from-predict", input=inp, observed=pb.tolist(), expected=np.asarray(pred).tolist()))
+        elif K == 2:
+            o = np.argsort(dec)
+            if np.any(np.diff(pb[o, 1]) < -1e-15):
+                failures.append(dict(site="predict_proba-batch:not-monotone-in-decision", input=inp, observed=pb.tolist()))
     nrep = 6 if tier == "quick" and not deep else (18 if tier == "quick" else 40)   # quick + broken obligation: 3x the quick search
     for _ in range(nrep):
         K = rng.choice([2, 2, 3, 4, 5])
